@@ -445,10 +445,19 @@ impl<S: Storage> Builder<S> {
             }
             .execute(),
 
-            CopyTo([src, child]) => CopyToFileExecutor {
-                source: self.node(src).as_ext_source(),
+            CopyTo([src, child]) => {
+                let names = (self.egraph[child].data.schema.iter())
+                    .map(|&id| match self.node(id) {
+                        Expr::Column(c) => (self.catalog().get_column(c))
+                            .map_or_else(|| c.to_string(), |col| col.name().to_string()),
+                        _ => self.recexpr(id).to_string(),
+                    })
+                    .collect();
+                CopyToFileExecutor {
+                    source: self.node(src).as_ext_source(),
+                }
+                .execute_with_names(self.build_id(child), names)
             }
-            .execute(self.build_id(child)),
 
             Explain(plan) => ExplainExecutor {
                 plan: self.recexpr(plan),
